@@ -8,7 +8,7 @@ MANIFEST_ENTRY = dict(
     technique="TLC model checking of spec/MCWallet.tla + TLC-generated behaviours replayed on the real code + TLC trace validation (spec/TraceWallet.tla)",
     note=WALLET_NOTE)
 
-PARAMS = dict(quick_cfgs=['MC_C17_quick.cfg', 'MC_C17_inv.cfg', 'MC_C17_two.cfg'], thorough_cfgs=['MC_C17.cfg', 'MC_C17_inv.cfg', 'MC_C17_quick.cfg', 'MC_C17_two.cfg', 'MC_C03_three.cfg@sim=500x30'], quick_n=130, thorough_n=500, focus=['ttl_past'],
+PARAMS = dict(quick_cfgs=['MC_C17_quick.cfg', 'MC_C17_inv.cfg', 'MC_C17_two.cfg', 'MC_C17_self.cfg'], thorough_cfgs=['MC_C17.cfg', 'MC_C17_inv.cfg', 'MC_C17_quick.cfg', 'MC_C17_two.cfg', 'MC_C17_self.cfg', 'MC_C03_three.cfg@sim=500x30'], quick_n=130, thorough_n=500, focus=['ttl_past'],
               setup=STD_SETUP, assumptions=WALLET_ASSUME, extra_behaviours=[])
 
 
